@@ -91,7 +91,7 @@ pub fn run(tier: &str, seed: u64, out: &mut Out) {
     }
     // 4. html escapers and dash_to_camel
     let n = if thorough { 100_000 } else { 20_000 };
-    let pool2: Vec<char> = "<>\"'&;-_aZ0 é\u{1f600}-".chars().collect();
+    let pool2: Vec<char> = "<>\"'&;-_aZ0 é\u{1f600}-{{{}".chars().collect();
     for _ in 0..n {
         let len = rng.below(8);
         buf.clear();
